@@ -211,7 +211,7 @@ CHECKS = {
              "two matchers are compared as languages by TLC; whole projects (several paragraphs and patterns, multi-line "
              "copyright, comments, in-file information to aggregate with) are converted for real and TLC checks that every "
              "path keeps exactly its copyright lines and expressions apart from the source's name, that REUSE.toml is "
-             "written before dep5 is removed, that a failed write keeps dep5, and that the command refuses without dep5. In addition Workflow.tla (the tool as a state machine over what the project declares, convert-dep5 interleaved with annotate / download / lint; ConversionKeepsAttribution, OnlyConvertMovesGlob model-checked) is replayed on a real project with the abstract state compared after every command.",
+             "written before dep5 is removed, that a failed write keeps dep5, and that the command refuses without dep5. In addition Workflow.tla (the tool as a state machine over what the project declares, convert-dep5 interleaved with annotate / download / lint; ConversionKeepsAttribution, OnlyConvertMovesGlob model-checked) is replayed on a real project with the abstract state compared after every command. ConvertTable.tla (preconditions of convert-dep5: what .reuse/dep5 is x what stands where REUSE.toml goes, 42 cells, M |= R) is replayed cell by cell.",
         note="A share of the cases runs in a fresh interpreter whose locale is not UTF-8 (LC_ALL=C, UTF-8 mode and locale coercion off) with text outside ASCII in the files: the locale is a hidden parameter. " "Two open findings (KF-C17-1 '?', KF-C17-2 '*/') are matched by TLA+ signatures; the dep5 side of the language "
              "comparison is the Debian specification as transcribed in Dep5Tok.",
         ref="5/C17"),
@@ -227,7 +227,7 @@ CHECKS = {
              "an outside sentinel, an ignored file, LICENSES/, .reuse/dep5 and a read-only file; TLC checks that everything "
              "that changed (content, mode, mtime, link target) lies in the command's documented footprint and that nothing "
              "outside the project changed. Every CLI invocation of the repository's tests/test_cli_*.py is recorded by a pytest "
-             "plugin (snapshots around it) and judged by the same specification. Targets.tla (the decision table: kind of file x what FILE.license is x dot-license option x --style -> header in the file / in the sibling / nowhere, exit status, fate of the other files; M |= ten rules R model-checked) is replayed cell by cell on the real tool.",
+             "plugin (snapshots around it) and judged by the same specification. Targets.tla (the decision table: kind of file x what FILE.license is x dot-license option x --style -> header in the file / in the sibling / nowhere, exit status, fate of the other files; M |= ten rules R model-checked) is replayed cell by cell on the real tool. ConvertTable.tla (preconditions of convert-dep5: what .reuse/dep5 is x what stands where REUSE.toml goes, 42 cells, M |= R) is replayed cell by cell.",
         note="The covered set for `annotate -r` is the tool's own lint listing before the command (C03's subject); .git/ is "
              "part of the snapshots and Git's cached stat information is made stale before every command; the network is a stub that always succeeds. "
              "Workflow.tla behaviours are replayed as well (which command may change declarations, LICENSES/, siblings, the project-wide declaration).",
@@ -245,7 +245,7 @@ CHECKS = {
              "escapes, exit status in {0,1,2}, invalid configuration gives exit 2 and a message naming the file, valid "
              "input is not rejected, an unreadable covered file is a read error or lacks information and the run completes. "
              "Every CLI invocation made by the repository's tests/test_cli_*.py is recorded and held to the exit-status "
-             "discipline too.",
+             "discipline too. ConvertTable.tla (preconditions of convert-dep5: what .reuse/dep5 is x what stands where REUSE.toml goes, 42 cells, M |= R) is replayed cell by cell.",
         note="Exceptions are observed at the click entry point in-process and, for a sample and for inputs whose bytes reach the terminal, in the real "
              "executable (started through harness/realmain.py, whose sys.excepthook tags exceptions nobody handled); read faults are injected by an audit hook; the valid/invalid/grey table is this check's reading "
              "of REUSE specification 3.3.",
